@@ -393,3 +393,27 @@ def no_pre_pattern_veto(ctx, scope: str):
                       f'`return None` under {describe_facts(fcl)} without consulting the pattern: spellings the pattern accepts (a decorator before the bracket, a tab next to the keyword) are refused')
     if n < 5:
         ctx.err('veto:inventory', '-', 'at least 5 "no match" returns in pattern-based matchers', f'{n}')
+
+
+# ------------------------------------------------------------------------------------------------ register names
+def not_a_register(cl, name: str, regs: str) -> bool:
+    """The facts say `name` is not a register name of `regs`, tested without regard to letter case (is_register_name)."""
+    want = ('call', f'is_register_name({name}, {regs})', False)
+    return any(len(c) == 1 and next(iter(c)) == want for c in cl)
+
+
+def register_name_test(ctx):
+    """is_register_name(name, registers): lower-cased name is among the lower-cased register names."""
+    f = ctx.repo.func('bespokeasm.utilities.is_register_name')
+    rr = returns(f)
+    n, regs = (p.arg for p in f.call_params[:2])
+    ok = len(rr) == 1
+    if ok:
+        v = rr[0].value
+        ok = isinstance(v, ast.Compare) and len(v.ops) == 1 and isinstance(v.ops[0], ast.In) and unparse(v.left) in (f'{n}.lower()', f'{n}.casefold()')
+        if ok:
+            c = v.comparators[0]
+            ok = isinstance(c, (ast.SetComp, ast.ListComp, ast.GeneratorExp)) and len(c.generators) == 1 and not c.generators[0].ifs and unparse(c.generators[0].iter) == regs \
+                and unparse(c.elt) == f'{unparse(c.generators[0].target)}.{unparse(v.left).split(".")[-1]}'
+    ctx.check(ok, 'registers:name-test-ignores-case', f.site(), 'a name is a register name iff its lower-cased spelling is among the lower-cased configured register names',
+              '; '.join(unparse(r) for r in rr))
